@@ -243,10 +243,31 @@ def _keys(ex, fn):
 
 
 # ------------------------------------------------------------------------------------------------- replay of a history
+_PRISTINE_TABLES = {}
+
+
+def _reset_process_tables():
+    """Every history starts from the process state of a fresh interpreter: the module-level default tables of
+    pylife.vmap.vmap_structures are put back to what they were when the module was imported (a history that changes them
+    must show the consequence in its OWN later events - replayable - and must not leak into the histories after it)."""
+    import copy
+    import pylife.vmap.vmap_structures as vs
+    for name in ("column_names",):
+        table = getattr(vs, name, None)
+        if not isinstance(table, dict):
+            continue
+        if name not in _PRISTINE_TABLES:
+            _PRISTINE_TABLES[name] = copy.deepcopy(table)
+        elif table != _PRISTINE_TABLES[name]:
+            table.clear()
+            table.update(copy.deepcopy(_PRISTINE_TABLES[name]))
+
+
 def _replay(hist):
     """Fresh file, fresh exporter, fresh model; execute hist.  The model follows the real outcome: a call that raised
     changes nothing.  -> (ex, fn, model, list of 'ok'/'raised', unjudged flag, number of exporter calls)"""
     import pylife.vmap as vmap
+    _reset_process_tables()
     fn = _new_file()
     ex = vmap.VMAPExport(fn)
     model = R.Model()
